@@ -139,6 +139,22 @@ Section Static.
   Qed.
 End Static.
 
+
+Lemma PCs_params ax ay bx by_ cx cy dx dy : PCs ax ay bx by_ cx cy dx dy ->
+  let d := sdet ax ay bx by_ cx cy dx dy in let x := sn1 ax ay cx cy dx dy in let y := sn2 ax ay bx by_ cx cy in
+  d <> 0 /\ 0 < x / d < 1 /\ 0 < y / d < 1.
+Proof.
+  intros [F1 [F2 [F3 F4]]] d x y. fold d x y in F1, F2, F3, F4.
+  assert (Hd : d <> 0) by (intro E; rewrite E in F1; lra).
+  assert (Hq : 0 < d * d) by (pose proof (Rle_0_sqr d) as H; unfold Rsqr in H; destruct H as [H | H]; [exact H | exfalso; symmetry in H; apply Rmult_integral in H; tauto]).
+  assert (G : forall z, 0 < z * d -> 0 < (d - z) * d -> 0 < z / d < 1).
+  { intros z G1 G2. assert (E1 : z / d = z * d / (d * d)) by (field; exact Hd).
+    assert (E2 : 1 - z / d = (d - z) * d / (d * d)) by (field; exact Hd).
+    assert (0 < z * d / (d * d)) by (apply Rdiv_lt_0_compat; assumption).
+    assert (0 < (d - z) * d / (d * d)) by (apply Rdiv_lt_0_compat; assumption). lra. }
+  split; [exact Hd |]. split; apply G; assumption.
+Qed.
+
 (** collinear and inside the disk over the segment: on the closed segment *)
 Lemma collinear_disk_onseg px py qx qy rx ry :
   (rx - qx) * (py - qy) - (ry - qy) * (px - qx) = 0 -> (px - qx) * (px - rx) + (py - qy) * (py - ry) <= 0 ->
